@@ -78,8 +78,12 @@ def build_and_stage(verbose=False):
         os.utime(dst)
         # keep the few most recent staged trees only
         pk = sorted((os.path.join(BUILD, d) for d in os.listdir(BUILD) if d.startswith("pkg-") and ".tmp" not in d), key=os.path.getmtime)
-        for old in pk[:-4]:
-            shutil.rmtree(old, ignore_errors=True)
+        # (never one that a check running in parallel on another checkout may still be using)
+        import time as _time
+
+        for old in pk[:-6]:
+            if _time.time() - os.path.getmtime(old) > 3 * 3600:
+                shutil.rmtree(old, ignore_errors=True)
     os.environ["VERIF_PKG"] = dst
     return dst
 
